@@ -38,8 +38,8 @@ if common.REPO != '/repo':
 
 warnings.filterwarnings('ignore')
 
-PROP_MAIN = ['Lcapy/Props/C16.lean', 'Lcapy/Props/C16Tables.lean', 'Lcapy/Props/C16Full.lean']
-PROP_CODE = ['Lcapy/Props/C16Order.lean']      # builds iff the code has no F7 (known finding, open)
+PROP_MAIN = ['Lcapy/Props/C16.lean', 'Lcapy/Props/C16Tables.lean', 'Lcapy/Props/C16Full.lean', 'Lcapy/Props/C16Order.lean']
+PROP_CODE = []      # table checks that build iff the code is free of a recorded open finding (none at present)
 HELPERS = ['Lcapy/Model/Cache.lean', 'Lcapy/Model/CacheAux.lean', 'Lcapy/Spec/Cache.lean',
            'Lcapy/Proofs/CacheTab.lean', 'Lcapy/Proofs/CacheElts.lean', 'Lcapy/Proofs/CacheInv.lean',
            'Lcapy/Proofs/CacheIso.lean', 'Lcapy/Proofs/CacheAux.lean', 'Lcapy/Driver/C16.lean',
@@ -650,6 +650,9 @@ HASH_HISTORIES = [
     [['V1 1 0 step 4', 'R1 1 2 2', 'C1 2 0 1'], 'V2'],
     [['V1 1 0 5', 'R1 1 2 1', 'R2 2 0 2', 'L1 2 3 1', 'L2 3 0 2'], 'simplify'],
     [['V1 1 0 5', 'R1 1 2 1', 'R2 2 0 2'], 'capacitors-after-add'],
+    [['V1 1 0 5', 'R1 1 2 1', 'R2 2 3 2', 'C1 3 4 1', 'C2 4 0 2'], 'simplify'],
+    [['I1 1 0 2', 'R1 1 0 3', 'R2 1 0 6', 'C1 1 0 1', 'C2 1 0 2', 'L1 1 0 1', 'L2 1 0 3'], 'simplify'],
+    [['V1 1 0 5', 'R1 1 2 1', 'R2 2 3 2', 'L1 3 4 1', 'L2 4 5 2', 'C1 5 6 1', 'C2 6 0 1'], 'simplify'],
 ]
 
 
@@ -711,9 +714,12 @@ def hash_seed_runs(chk, drv, seeds):
                 bad = sd
                 break
         if bad is not None:
-            found.append({'kind': 'hash-seed', 'op': what})
-            chk.count('counterexample', json.dumps({'kind': 'hash-seed', 'op': what}, sort_keys=True))
-            chk.counterexample({'kind': 'hash-seed', 'op': what},
+            # same lines in a different order (element order only) or really different netlists?
+            same_lines = sorted(vals[ref_seed].split('\n')) == sorted(vals[bad].split('\n'))
+            key = {'kind': 'hash-seed', 'op': what, 'differs': 'line-order' if same_lines else 'content'}
+            found.append(key)
+            chk.count('counterexample', json.dumps(key, sort_keys=True))
+            chk.counterexample(key,
                                {'input': {'netlist': lines, 'op': what}, 'python_hash_seed': [ref_seed, bad],
                                 'lcapy': {str(ref_seed): vals[ref_seed], str(bad): vals[bad]},
                                 'spec': 'the result must not depend on PYTHONHASHSEED'},
